@@ -2,6 +2,7 @@ package chunkparser
 
 import (
 	"encoding/binary"
+	"fmt"
 	"io"
 )
 
@@ -55,6 +56,10 @@ func (p *MP4ChunkParser) Parse() error {
 			return nil
 		}
 		size := binary.BigEndian.Uint32(p.buf[nextBoxStart : nextBoxStart+4])
+		if size < 8 || nextBoxStart+size < nextBoxStart {
+			// A box is at least a header, and the 32-bit offset must not wrap: both would loop forever.
+			return fmt.Errorf("bad box size %d at offset %d", size, nextBoxStart)
+		}
 		currBox = string(p.buf[nextBoxStart+4 : nextBoxStart+8])
 		nextBoxStart += size
 		switch currBox {
